@@ -157,7 +157,7 @@ def report(ctx, case, op, pred, violation, what):
     ctx.count("violation:%s:%s" % (op, violation))
 
 
-def pred_ranks(x, alg):
+def pred_ranks(x, alg, rtt_req=None, rtk_req=None):
     nx = frob(x)
     if 0 < nx < 1e-12:
         return "0 < norm(x) < 1e-12"
@@ -172,6 +172,18 @@ def pred_ranks(x, alg):
             if len(sv) >= 2 and sv[0] > 0 and sv[-1] <= 1e-7 * sv[0] and np.any((sv > 1e-9 * sv[0]) & (sv < 1.05e-4)):
                 return ("algorithm='eig', a numerically rank-deficient unfolding with genuine singular values below 1e-4 (outranked by the "
                         "spurious 1e-4 substituted for negative Gram eigenvalues)")
+    if alg == "eig" and nx > 0:
+        # a requested rank ABOVE the numerical rank of an unfolding: the svd path drops the rank, the Gram path keeps directions belonging to the
+        # 1e-8 it substitutes for negative round-off eigenvalues, and the reconstruction error rises from 1e-16 to ~1e-7
+        def above(Ms, req):
+            for M, k in zip(Ms, req or []):
+                sv = svals(M)
+                if len(sv) and sv[0] > 0 and k > int(np.sum(sv > 1e-10 * sv[0])):
+                    return True
+            return False
+        if above(tt_unfoldings(x), rtt_req) or above(mode_unfoldings(x), rtk_req):
+            return ("algorithm='eig' and a requested rank above the numerical rank of an unfolding (directions of the 1e-8 substituted for negative "
+                    "Gram eigenvalues are kept)")
     return "none of: tiny norm, eig with small norm"
 
 
@@ -200,7 +212,7 @@ def run_ranks(ctx, case):
               "algorithm": alg})
     ctx.count("op:" + op); ctx.count("fill:" + case["fill"]); ctx.count("alg:" + alg); ctx.count("N:%d" % N)
     ctx.count("ranks:" + ("list" if isinstance(case.get("ranks_tt", case.get("ranks_tucker")), list) else "scalar"))
-    pred = pred_ranks(x, alg)
+    pred = pred_ranks(x, alg, rtt_req, rtk_req)
     kw = {"algorithm": alg}
     if rtt_req is not None:
         kw["ranks_tt"] = case["ranks_tt"]
